@@ -26,7 +26,8 @@ def main():
             entry='set_sim_join', measure=measure, thresholds=thr, comp_ops=ops,
             out_sim_score=[True], props=P, **shape)), bounds=dict(thresholds=thr, **shape))
     ck.e2('core-OC', h_core.make(dict(entry='oc_split', measure='OVERLAP_COEFFICIENT',
-                                      thresholds=[0.5, 0.67, 1.0], comp_ops=ops, props=P, **shape)))
+                                      sym_threshold=True, comp_ops=ops, props=P, nl=1, nr=2, k=3)),
+          bounds=dict(threshold='symbolic double in (0,1]', rows='1x2', k=3))
     ck.e2('core-overlap', h_core.make(dict(entry='filter_split', filter='OverlapFilter',
                                            measure='OVERLAP', thresholds=[1, 2, 3], comp_ops=ops,
                                            props=P, **shape)))
